@@ -5,9 +5,6 @@ package main
 
 import (
 	"bytes"
-	"net"
-	"os"
-	"path/filepath"
 	"crypto/ecdsa"
 	"crypto/elliptic"
 	"crypto/rand"
@@ -20,12 +17,16 @@ import (
 	"fmt"
 	"math/big"
 	mrand "math/rand"
+	"net"
 	"net/http"
 	"net/http/httptest"
+	"os"
+	"path/filepath"
 	"sort"
 	"strconv"
 	"strings"
 	"sync"
+	"sync/atomic"
 	"time"
 
 	"github.com/fabiolb/fabio/cert"
@@ -203,7 +204,6 @@ func pickCoq(i int, err error) string {
 		return vh.App("PCert", vh.Nat(i))
 	}
 }
-
 
 // pickIn encodes what GetCertificate returned as a model pick: the index of the returned
 // certificate in [set], the set the harness knows the store was given last (1000 when the
@@ -494,15 +494,20 @@ func main() {
 		s.ch <- tlsSet(b) // the first set is installed once the second send is accepted
 		stop := make(chan struct{})
 		var wg sync.WaitGroup
+		var sent int64 // replacements accepted so far
 		go func() {
 			for k := 0; ; k++ {
 				select {
 				case <-stop:
 					return
 				case s.ch <- tlsSet([][]*gcert{a, b}[k%2]):
+					atomic.AddInt64(&sent, 1)
 				}
 			}
 		}()
+		// on a busy machine 2400 handshakes can be over before the updater goroutine has run at
+		// all: the handshakes go on (slowly) until 200 replacements have been accepted
+		deadline := time.Now().Add(20 * time.Second)
 		var mu sync.Mutex
 		var seen []obs
 		reqs := make([]string, 6)
@@ -513,7 +518,10 @@ func main() {
 			wg.Add(1)
 			go func(g int) {
 				defer wg.Done()
-				for k := 0; k < 300; k++ {
+				for k := 0; k < 300 || (atomic.LoadInt64(&sent) < 200 && time.Now().Before(deadline)); k++ {
+					if k >= 300 {
+						time.Sleep(500 * time.Microsecond)
+					}
 					sn := reqs[(g+k)%len(reqs)]
 					c, err := cfg.GetCertificate(&tls.ClientHelloInfo{ServerName: sn})
 					o := obs{sn: sn, idx: -1, err: err}
@@ -553,8 +561,8 @@ func main() {
 		}
 		run.Notes["extra_evaluations"] = len(seen) + intNote(run.Notes["extra_evaluations"])
 		if !strict && !(sawA && sawB) {
-			// non-strict handshakes always get a certificate; 2400 of them spread over hundreds
-			// of replacements must have been answered from both sets
+			// non-strict handshakes always get a certificate; at least 2400 of them spread over
+			// hundreds of replacements must have been answered from both sets
 			run.Violation(run.NextID(), "handshakes during replacement were never answered from one of the two alternating sets", map[string]interface{}{"saw_a": sawA, "saw_b": sawB})
 		}
 		for _, k := range sortedKeys(dist) {
@@ -1554,6 +1562,9 @@ func main() {
 	// 3e'. directories in which the file of a certificate in use is left with zero length
 	// (zerolen.go); planned after the others so that their certificates stay what they were
 	deploys = append(deploys, planZeroLength(run.Seed)...)
+	// 3e''. path sources whose configured path leads through symbolic links that are
+	// re-pointed to publish (pathlink.go); planned last, for the same reason
+	deploys = append(deploys, planPathLinks(run.Seed, run.Scale(2, 5))...)
 	// 3f. the listeners of generated command lines through the real makeTLSConfig (deploy.go)
 	var lCases []pcase
 	var lViols []pviol
